@@ -318,17 +318,36 @@ func scenarioRelay() int {
 				c.learnedBefore = learn.get(c.path.Svc, c.hopHost)
 			}
 			w.Net.Forget(c.id)
-			if w.Send(c.path, raw, c.id) == nil && w.Barrier(c.path) {
+			copies := 1
+			if c.path.Proto == "udp" && i%2 == 0 {
+				copies = 2 // two retransmissions back to back, nothing in between
+			}
+			sentOK := true
+			for k := 0; k < copies; k++ {
+				sentOK = sentOK && w.Send(c.path, raw, c.id) == nil
+			}
+			if sentOK && w.Barrier(c.path) {
 				obs2 := w.Net.ForCase(c.id)
-				if len(obs2) == 0 {
-					w.Net.WaitCase(c.id, func(o []*wire.Obs) bool { return len(o) >= 1 }, w.BarrierWait)
+				if len(obs2) < copies {
+					w.Net.WaitCase(c.id, func(o []*wire.Obs) bool { return len(o) >= copies }, w.BarrierWait)
 					obs2 = w.Net.ForCase(c.id)
 				}
 				c2 := *c
 				c2.sig = "sent-again," + c.sig
-				judgeRelay(run, w, prop, &c2, obs2, branches)
+				if len(obs2) != copies {
+					d := relayDetail(&c2, obs2, "")
+					d["copies_sent_back_to_back"] = copies
+					d["relayed"] = len(obs2)
+					run.Violation("retransmissions of a message are not relayed one for one", d)
+				} else {
+					for _, o := range obs2 {
+						if !judgeRelay(run, w, prop, &c2, []*wire.Obs{o}, branches) {
+							break
+						}
+					}
+				}
 				c.nobs = len(obs2)
-				resent++
+				resent += copies
 			}
 		}
 		if run.WantSample() && i > 30 && len(obs) == 1 && len(raw) < 1500 {
